@@ -19,6 +19,7 @@ from beartype.door._cls.pep.pep484.doorpep484class import ClassTypeHint
 from beartype.door._cls.pep.pep484585.doorpep484585subscripted import (
     SubscriptedTypeHint as SubscriptedTypeHint)
 from beartype.roar import BeartypeDoorIsSubhintException
+from beartype._util.cls.pep.clspep3119 import is_type_subclass_or_nominal
 from beartype._util.hint.pep.proposal.pep484585.generic.pep484585genfind import (
     find_hint_pep484585_generic_args_full)
 
@@ -40,7 +41,7 @@ class GenericTypeHint(TypeHint):
         # If the unsubscripted type originating this generic is *NOT* a subclass
         # of the unsubscripted type originating that branch, this generic is
         # *NOT* a subhint of that branch. In this case, return false.
-        if not issubclass(self._origin, branch._origin):
+        if not is_type_subclass_or_nominal(self._origin, branch._origin):
             # print(f'{self._origin} not subclass of {branch._origin})!')
             return False
         # Else, the unsubscripted type originating this generic is a subclass
